@@ -176,6 +176,21 @@ pub fn run(cfg: &Cfg) {
     for k in &pool {
         keyid_case(&mut sink, &mut model, k);
     }
+    // the key-id preimage for every description of the pool's keys a document may carry - the same
+    // material in every spelling, with and without a hash-algorithm list, under every type / scheme name -
+    // read one after the other in this thread, twice (what an earlier reading left behind must not show)
+    let pool_all = crate::meta::key_pool_all_sizes(1);
+    for round in 0..2 {
+        for k in &pool_all {
+            let mut vs = crate::c16_doc::respelled_keys(k.public());
+            if round == 1 {
+                vs.reverse();
+            }
+            for v in vs {
+                crate::c16_doc::key_case(&mut sink, &v, "respelled");
+            }
+        }
+    }
     let n = if cfg.thorough { 20_000 } else { 1_500 };
     for i in 0..n {
         let key = *r.pick(&ed);
